@@ -11,6 +11,8 @@ use crate::scenario::{Entry, Scenario, UserOp};
 use crate::world::{EvKind, RunRecord};
 
 
+pub mod c18;
+
 pub fn v(prop: &'static str, clause: &'static str, detail: String) -> Violation {
     Violation { prop, clause, detail, value: String::new() }
 }
